@@ -793,7 +793,7 @@ func TestC17(t *testing.T) {
 	gen := &c17Gen{rng: rng, nextID: 5000}
 	// (fewer than the 150 / 5 000 sequences of the design: closing a modernc SQLite connection costs milliseconds of munmap on
 	// this machine and every case needs several; the variants of a sequence are still enumerated completely)
-	nSeq := vh.N(50, 800) / shardN
+	nSeq := vh.N(40, 800) / shardN
 	known := vh.KnownKeys("C17")
 
 	knownExit := map[string]bool{}
